@@ -23,7 +23,10 @@ MANIFEST = dict(
           "conversions of the same dimensions before the edit, and for one unit spelling that means two things (two registries "
           "whose rows of that symbol differ in dimension / size / offset, converted into a system they share - built-in, user-defined "
           "and bound to no registry, or bound to the first registry - first from one, then from the other, then from the first "
-          "again; or one registry whose symbol was removed and added anew), all sizes z3 reals; any model is replayed on plain unyt. "
+          "again; or one registry whose symbol was removed and added anew), and for every spelling of the constructor call of a user-defined system (first k documented arguments "
+          "positionally, rest by keyword; all by keyword in three orders; units as strings / Unit objects / None) with the expected unit "
+          "per dimension taken from the arguments the harness passed BY DOCUMENTED PARAMETER NAME, all sizes z3 reals; any model is "
+          "replayed on plain unyt. "
           "Bounded: unit names, coefficients, compound shapes, request orders, system pairs, edit kinds and the pairs of meanings are "
           "enumerated; rounding is outside."),
     design="DESIGN.md section 4 C10",
@@ -64,7 +67,18 @@ EXPLANATION = (
     "and added with the other meaning between the calls. The system is one the registries share: the 7 built-in ones, a "
     "user-defined one bound to no registry (with an override), and one bound to registry A whose own symbols have other symbolic "
     "sizes in B. Anything a conversion leaves behind keyed by the spelling alone (on the system, a class, a module table, a unit "
-    "object of the other registry handed out again) shows up as a term in the other side's scale symbols or as a wrong dimension."
+    "object of the other registry handed out again) shows up as a term in the other side's scale symbols or as a wrong dimension. "
+    "Spelling of the constructor call (family spell): UnitSystem(name, length_unit, mass_unit, time_unit, temperature_unit, angle_unit, "
+    "current_mks_unit, luminous_intensity_unit, logarithmic_unit, registry) is called with the first k = 4..10 documented arguments "
+    "positionally and the rest by keyword, and all by keyword in documented / reversed / rotated order, for four systems whose 8 base "
+    "units all have symbolic sizes (all strings; all Unit objects incl. an SI-prefixed one; current_mks_unit None; table units R, "
+    "degree, mA, Np mixed with symbolic ones, strings and Unit objects alternating). inspect.signature of the loaded constructor "
+    "decides whether a positional spelling binds at all (if not: skipped; the all-keyword spellings are never skipped); a spelling that "
+    "binds must construct, register, report has_current_mks and S[slot] as PASSED, and pass the full battery on quantities containing "
+    "the SI current (A, T, C/m**3, V/m, A**2*s, ohm*m; for the current-less system A/m, kg/(A*s**2), A**2*s, A*s must raise "
+    "UnitsNotReducible) and on lm*Np/K (luminous intensity, angle, logarithmic, temperature), J/K, rad/s, Np**2/s, km - the oracle "
+    "(expected unit per dimension, whether an MKS current exists) is the harness' record of the value it handed over for each "
+    "documented parameter NAME, never the system's own units_map (a mis-bound argument makes the map agree with the wrong result)."
 )
 BOUNDS = {
     "quick": ("systems: 7 built-in + 8 user-defined (U1: 3 base units; U2: all optional base units + energy override; U3: no MKS current, "
@@ -95,7 +109,8 @@ BOUNDS = {
               "dimensions were converted before the edit), 6 starting units each, the full battery on one of them. One spelling, two "
               "meanings: 9 systems (7 built-in, T1 unbound user-defined, W1 bound to the first registry) x 6 pairs of meanings x "
               "1 of <= 5 spellings x 1 of 4 first calls x two registries or one registry edited (rotating; both for length/mass and "
-              "length/length on cgs, mks, T1, W1): 62 cases"),
+              "length/length on cgs, mks, T1, W1): 62 cases. Spelling of the constructor call: 4 systems x 10 spellings (7 positional "
+              "prefixes, 3 keyword orders), 2 of 6 (4) current-containing starting units (rotating) + lm*Np/K each: 40 cases"),
     "thorough": ("as quick, plus: every table symbol x 4 U-systems and every table symbol with a symbolic-scale row x 7 built-in "
                  "systems (one case each); 1 symbol per dimension x 4 Q-systems; 2-element payloads for the table sweep; 24-symbol "
                  "compound pool, 6 rotations; 32 prefixed units; 75 harness-defined starting units x all 15 systems (Q-systems without "
@@ -103,7 +118,8 @@ BOUNDS = {
                  "numbers in front: 3 coefficients as string + 2 as Unit object x all 15 systems; system to system: all 42 ordered pairs "
                  "of U1-U3/Q1-Q4, 8 mixed pairs, 6 starting units; registry edits: all 7 built-in systems, every (edit kind x before-set) "
                  "combination for every edited symbol; one spelling, two meanings: every system x pair of "
-                 "meanings x spelling x (two registries, one registry edited), the first call rotating: 450 cases"),
+                 "meanings x spelling x (two registries, one registry edited), the first call rotating: 450 cases; constructor spellings: "
+                 "all 6 (4) current-containing starting units + lm*Np/K, J/K, rad/s, Np**2/s, km per case"),
 }
 OUTSIDE = ("IEEE rounding/overflow (A1) - compounds whose factorisation into a system's base units leaves the double range in a partial "
            "product (t_pl**8 ...) are skipped; integer/complex payloads (C17); the numeric correctness of table rows themselves (C02: the "
@@ -121,7 +137,9 @@ OUTSIDE = ("IEEE rounding/overflow (A1) - compounds whose factorisation into a s
            "their 1e-35 .. 1e-44 table scales with symbolic scales were not decided by z3 inside the budget: 1 path > 25 min); "
            "chains and registry edits are walked for the listed pairs / symbols / 6 "
            "starting units, not for the whole unit table; two registries that give a symbol of the SYSTEM's own units (cm, g ...) "
-           "different dimensions; offset-carrying spellings in compounds (unyt refuses them); more than two registries")
+           "different dimensions; offset-carrying spellings in compounds (unyt refuses them); more than two registries; constructor spellings the "
+           "signature of the code under test does not bind (positional ones only); optional base units other than the current given as "
+           "None (the constructor itself fails on them); arbitrary permutations of the keywords (3 orders walked)")
 
 NAMES = ["xl", "xm", "xt", "xtemp", "xang", "xcur", "xen", "xv", "xa", "xb", "xc", "xlum", "xlog", "xpr"]
 CODE_NAMES = ["code_length", "code_mass", "code_time", "code_temperature", "code_velocity", "code_magnetic", "code_pressure", "code_density"]
@@ -328,7 +346,7 @@ def battery(ctx, tag, q, xs, S, sysargs, reg, base_keys, src, decl=None, lut=Non
     declared = declared_atoms(S)
     if decl is None:
         decl = dict(S.units_map)
-    has_current = S.units_map[D.current_mks] is not None
+    has_current = decl[D.current_mks] is not None  # the harness' record (default: the system's own map on entry)
     u_before = q.units
     ustr_before = str(q.units)
     arg0 = sysargs[0][1]
@@ -731,6 +749,131 @@ def user_system(ctx, variant, reg):
     else:
         raise KeyError(variant)
     return S, name, [("name", name), ("object", S)], decl
+
+
+# ----------------------------------------------------------------------------- spelling of the constructor call (family spell)
+# the DOCUMENTED parameters of UnitSystem(...) in documented order; the harness keeps the value it passes per NAME and the
+# oracle reads that record (never the system's own units_map: a mis-bound argument makes the map agree with the wrong result)
+SPELL_DOC = ["name", "length_unit", "mass_unit", "time_unit", "temperature_unit", "angle_unit", "current_mks_unit",
+             "luminous_intensity_unit", "logarithmic_unit", "registry"]
+SPELL_SLOT = {v: k for k, v in QSLOT_KW.items()}
+# spec: slot -> symbol (None: no unit); "form": how the optional units are handed over
+SPELL_SPECS = {
+    "str": dict(form="s", units=dict(length="xl", mass="xm", time="xt", temperature="xtemp", angle="xang", current_mks="xcur",
+                                     luminous_intensity="xlum", logarithmic="xlog")),
+    "unit": dict(form="U", units=dict(length="xl", mass="kxm", time="xt", temperature="xtemp", angle="xang", current_mks="xcur",
+                                      luminous_intensity="xlum", logarithmic="xlog")),
+    "nocur": dict(form="s", units=dict(length="xl", mass="xm", time="xt", temperature="xtemp", angle="xang", current_mks=None,
+                                       luminous_intensity="xlum", logarithmic="xlog")),
+    "mixed": dict(form="m", units=dict(length="kxl", mass="xm", time="xt", temperature="R", angle="degree", current_mks="mA",
+                                       luminous_intensity="xlum", logarithmic="Np")),
+}
+SPELL_EM = ["A", "T", "C/m**3", "V/m", "A**2*s", "ohm*m"]
+SPELL_EM_NOCUR = ["A/m", "kg/(A*s**2)", "A**2*s", "A*s"]
+SPELL_REST = ["lm*Np/K", "J/K", "rad/s", "Np**2/s", "km"]
+
+
+def spell_accepts(mods, args, kw):
+    """does the real constructor's signature (read from the loaded code) bind this spelling at all?"""
+    import inspect
+    try:
+        inspect.signature(mods["US"].UnitSystem.__init__).bind(None, *args, **kw)
+    except TypeError as e:
+        return str(e)
+    return None
+
+
+def spellings():
+    """every spelling of the call: the first k documented arguments positionally (k = 4 .. all 10), the rest by keyword;
+    everything by keyword in documented / reversed / rotated order"""
+    return [f"pos{k}" for k in range(4, len(SPELL_DOC) + 1)] + ["kw", "kwrev", "kwrot"]
+
+
+def make_spell_case(spec, spelling, ems, rest):
+    sp = SPELL_SPECS[spec]
+
+    def h(ctx):
+        mods = ctx.mods
+        unyt = mods["unyt"]
+        US = mods["US"]
+        reset_builtin(mods)
+        name = "xsys_spell_" + spec
+        try:
+            reg = user_registry(ctx, "Q2")
+            vals = {"name": name, "registry": reg}
+            dk = {}
+            for i, (slot, sym) in enumerate(sp["units"].items()):
+                if sym is None:
+                    vals[QSLOT_KW[slot]] = None
+                    dk[slot] = None
+                    continue
+                form = sp["form"] if sp["form"] != "m" else "sU"[i % 2]
+                vals[QSLOT_KW[slot]] = unyt.Unit(sym, registry=reg) if form == "U" else sym
+                dk[slot] = _psym(sym)
+            decl = _decl(mods, **dk)
+            if spelling.startswith("pos"):
+                k = int(spelling[3:])
+                args = [vals[n] for n in SPELL_DOC[:k]]
+                kw = {n: vals[n] for n in SPELL_DOC[k:]}
+            else:
+                order = list(SPELL_DOC)
+                if spelling == "kwrev":
+                    order.reverse()
+                elif spelling == "kwrot":
+                    order = order[6:] + order[:6]
+                args = []
+                kw = {n: vals[n] for n in order}
+            refused = spell_accepts(mods, args, kw)
+            if refused is not None and args:
+                # a positional spelling the signature of this code does not bind at all: nothing to check (the documented
+                # NAMES must bind: the all-keyword spellings are never skipped)
+                ctx.observe("spelling", "not accepted: " + refused[:100])
+                return
+            res = call(US.UnitSystem, *args, **kw)
+            ctx.require("consistent system accepted", res[0] == "ok", err=repr(res[1])[:160] if res[0] == "raise" else "")
+            if res[0] != "ok":
+                return
+            S = res[1]
+            keys = set(reg.lut)
+            ctx.require("registered under its name", US.unit_system_registry.get(name) is S and str(S) == name)
+            ctx.require("has_current_mks as passed", bool(S.has_current_mks) == (sp["units"]["current_mks"] is not None))
+            D = unyt.dimensions
+            for slot, sym in sp["units"].items():
+                if sym is None:
+                    continue
+                got = call(S.__getitem__, slot)
+                ctx.require(f"S[{slot}] is the unit passed for {QSLOT_KW[slot]}",
+                            got[0] == "ok" and same_expr(got[1].expr, _psym(sym)), got=str(got[1])[:80], want=sym)
+            for i, ustr in enumerate(list(ems) + list(rest)):
+                x = ctx.reals(f"x_{i}", ())
+                q = ctx.quantity(x, ustr, reg)
+                if q.units.is_atomic:
+                    src = atomic_src(str(q.units.expr), reg.lut, keys)
+                else:
+                    s, d = oracle_unit(q.units.expr, reg.lut, keys)
+                    src = (s, 0.0, d)
+                battery(ctx, ustr, q, elements(x), S, [("name", name), ("object", S)], reg, keys, src, decl=decl)
+        finally:
+            US.unit_system_registry.pop(name, None)
+            reset_builtin(mods)
+    return Case(f"C10/spell/{spec}/{spelling}", h, bounds="symbolic: values, all 8 base-unit scales; enumerated: spelling of the call",
+                budget_s=600, max_paths=3000, oblig_timeout_ms=OBLIG_MS, weight=8 * (len(ems) + len(rest)))
+
+
+def spell_cases(tier, mods):
+    out = []
+    n = 0
+    for spec in SPELL_SPECS:
+        em = SPELL_EM_NOCUR if SPELL_SPECS[spec]["units"]["current_mks"] is None else SPELL_EM
+        for spelling in spellings():
+            if tier == "quick":
+                ems = [em[n % len(em)], em[(n + 1) % len(em)]]
+                rest = SPELL_REST[:1]
+            else:
+                ems, rest = em, SPELL_REST
+            out.append(make_spell_case(spec, spelling, ems, rest))
+            n += 1
+    return out
 
 
 def _sym_atom(dim, prefix="", offset=False):
@@ -1703,6 +1846,8 @@ def cases(tier, mods):
                 n += 1
             for e, w in combos:
                 out.append(make_regedit_case(variant, target, e, w))
+    # every spelling of the constructor call of a user-defined system
+    out.extend(spell_cases(tier, mods))
     # one spelling, two meanings (two registries / one registry edited) x systems shared between registries
     n = 0
     for system in TWOREG_SYSTEMS:
